@@ -143,6 +143,11 @@ func checkMarching(c *vlib.Case, api string, s *fsolid, delta float64, iters int
 						lo, hi := lat[axis][idx[axis]], lat[axis][idx2[axis]]
 						h := (hi - lo) / math.Pow(2, float64(iters+1))
 						arr := v.Array()
+						// many iterations: no window narrower than the floating-point spacing at the
+						// vertex itself (which is much finer near coordinate 0 than at the edge's ends)
+						if u := math.Nextafter(math.Abs(arr[axis]), math.Inf(1)) - math.Abs(arr[axis]); h < 2*u {
+							h = 2 * u
+						}
 						probe := func(off float64) bool {
 							q := arr
 							q[axis] += off
@@ -326,6 +331,41 @@ func marching3(r *vlib.Run) {
 		default:
 			mesh, in := model3d.MarchingCubesInterior(s, delta, iters)
 			checkMarching(c, "model3d.MarchingCubesInterior", s, delta, iters, mesh, in, dyadic)
+		}
+	})
+	// bisection carried on for 40-110 iterations on a box cut by a plane extremely close to a
+	// coordinate plane: on lattice edges that touch 0 the transition can be resolved far below the
+	// floating-point spacing at the edge's other end
+	r.Section("mc.deepsearch", r.N(40, 800), vlib.SectionOpts{}, func(c *vlib.Case) {
+		rng := c.Rng
+		ax := rng.Intn(3)
+		t := math.Pow(10, -8-30*rng.Float64())
+		if rng.Intn(3) == 0 {
+			t = math.Ldexp(0.5+rng.Float64()/2, -20-rng.Intn(90))
+		}
+		if rng.Intn(2) == 0 {
+			t = -t
+		}
+		below := rng.Intn(2) == 0
+		// (the box's own faces are kept off the lattice planes)
+		in := 0.8 + 0.13*rng.Float64()
+		s := &fsolid{model3d.XYZ(-1, -1, -1), model3d.XYZ(1, 1, 1), func(p C3) bool {
+			if math.Abs(p.X) > in || math.Abs(p.Y) > in || math.Abs(p.Z) > in {
+				return false
+			}
+			if below {
+				return p.Array()[ax] <= t
+			}
+			return p.Array()[ax] >= t
+		}, fmt.Sprintf("cube[-%x,%x]^3 cut at axis %d %v %x", in, in, ax, below, t)}
+		delta := []float64{0.5, 0.25, 0.4}[rng.Intn(3)]
+		iters := 40 + rng.Intn(71)
+		c.Count("mc.deepsearch.cases", 1)
+		if rng.Intn(2) == 0 {
+			checkMarching(c, "model3d.MarchingCubesSearch", s, delta, iters, model3d.MarchingCubesSearch(s, delta, iters), nil, 0)
+		} else {
+			mesh, in := model3d.MarchingCubesInterior(s, delta, iters)
+			checkMarching(c, "model3d.MarchingCubesInterior", s, delta, iters, mesh, in, 0)
 		}
 	})
 	// lattice bitmaps through the search/interior variants (exact)
